@@ -160,6 +160,15 @@ CHECKS = {
              "x value kinds x selectors, rows and full text compared; Node/AnyNode reprs against the _repr model.",
         design="6/C09", note="repr/str/splitlines are CPython's (lines shipped); Node repr modelled for plainly quotable names.",
         technique="Coq proof (generator = structural rows = pointwise rows) + correspondence"),
+    "C17": dict(
+        text="Every structural function of the model is defined without access to the record of user special methods "
+             "(Model/Special.v); theorems state the boundary of the two functions that did consult them before their "
+             "repair (fix: be4b49c, 01faf79): refutation witnesses for always-equal / falsy classes, agreement for "
+             "identity-like classes, identity-only after the repair. The weight is on the tie: the case sets of C01, "
+             "C04-C09, C12-C15 re-run on node classes with 8 kinds of adversarial, logging special methods must equal "
+             "the model and log no invocation.",
+        design="6/C17, 7 (D9, D10)", note="thin by nature: which operation dispatches to which special method is CPython's.",
+        technique="Coq model without special-method access + refutation/guard theorems + adversarial-class correspondence reusing all other drivers"),
 }
 
 NOT_YET = "check not built yet in this round (work in progress; see DESIGN.md section 6 for the plan)"
